@@ -48,6 +48,8 @@ def run(ctx):
     d2_block_ranges(ctx)
     d2_permutation(ctx)
     d3_elevation(ctx)
+    from . import parentelem
+    parentelem.run(ctx, "D3/T6-parent-element-tables")
     ctx.trust("Exodus II stores node/element/side numbers one-based; TRI6 = 3 vertices then mid-side nodes 3:(0,1) 4:(1,2) 5:(2,0)")
     ctx.assume("meshes have at least one block; sets are dicts name -> index array")
 
@@ -80,16 +82,10 @@ def d1_lossless(ctx):
                 ctx.refuted(rule, sc, lp, construct=f"{fname}:second-source-stored", detail=f"entries of `{p2}` are never stored into the merged dict")
                 continue
             body_src = ast.Module(body=lp.body, type_ignores=[])
-            member_tests = [n for n in ast.walk(body_src) if isinstance(n, ast.Compare) and len(n.ops) == 1 and isinstance(n.ops[0], (ast.In, ast.NotIn))
-                            and isinstance(n.comparators[0], ast.Name) and n.comparators[0].id == new and src(n.left) == key]
-            reads_prev = [n for n in ast.walk(body_src) if isinstance(n, ast.Subscript) and isinstance(n.ctx, ast.Load)
-                          and isinstance(n.value, ast.Name) and n.value.id == new and src(n.slice) == key]
-            for st in stores:
-                ok = bool(member_tests) and bool(reads_prev)
-                # alternative lossless form: store only when the key is new
-                ctx.decide(rule, ok, sc, st, construct=f"{fname}:store-keeps-first-source",
-                           detail=f"`{src(st)[:70]}` merges with the entry of the first source under a membership test",
-                           bad_detail=f"`{src(st)[:90]}` overwrites `{new}[{key}]` that was filled from `{p1}`: when both meshes have a set "
+            for (ok, wit, st) in _merge_paths(cfg_of(sc), lp, new, key):
+                ctx.decide(rule, ok, sc, st, construct=f"{fname}:store-keeps-first-source[{wit['path']}]",
+                           detail=f"on this path the stored value contains the entry of the first source, or there is none / it is empty",
+                           bad_detail=f"path [{wit['path']}] stores `{wit['value']}` into `{new}[{key}]` although {wit['why']}: when both meshes have a set "
                                       f"named alike, the first mesh's members are lost")
             # the second source is offset
             off = sc.params()[2]
@@ -114,6 +110,150 @@ def d1_lossless(ctx):
     ctx.decide("D1/T9-index-kinds", ok, sc, hits[0] if hits else None, construct="sidesets:shift-element-column-only",
                detail="offset added to column 0 (element id) only; local side numbers unchanged",
                bad_detail=f"side sets are shifted as `{src(hits[0]) if hits else '?'}`; only column 0 (the element id) may be shifted")
+
+
+STACKERS = ("hstack", "vstack", "concatenate", "append", "row_stack")
+
+
+def _prop_atoms(e, out):
+    """collect propositional atoms (canonical text -> sample node) of a condition"""
+    if isinstance(e, ast.BoolOp):
+        for v in e.values:
+            _prop_atoms(v, out)
+    elif isinstance(e, ast.UnaryOp) and isinstance(e.op, ast.Not):
+        _prop_atoms(e.operand, out)
+    else:
+        out.setdefault(_atom_key(e)[0], e)
+
+
+def _atom_key(e):
+    """(canonical atom, polarity): `x not in y` -> (`x in y`, False); `len(x) == 0` -> (`len(x) > 0`, False); `len(x) != 0`/`len(x) >= 1` -> True"""
+    if isinstance(e, ast.Compare) and len(e.ops) == 1:
+        l, r, op = e.left, e.comparators[0], e.ops[0]
+        if isinstance(op, ast.NotIn):
+            return (f"{src(l)} in {src(r)}", False)
+        if isinstance(op, ast.In):
+            return (f"{src(l)} in {src(r)}", True)
+        if isinstance(l, ast.Call) and src(l.func) == "len" and const_value(r) is not None:
+            c = const_value(r)
+            base = f"len({src(l.args[0])}) > 0"
+            if isinstance(op, ast.Gt) and c == 0 or isinstance(op, ast.GtE) and c == 1 or isinstance(op, ast.NotEq) and c == 0:
+                return (base, True)
+            if isinstance(op, ast.Eq) and c == 0 or isinstance(op, ast.Lt) and c == 1 or isinstance(op, ast.LtE) and c == 0:
+                return (base, False)
+    return (src(e), True)
+
+
+def _prop_eval(e, asg):
+    if isinstance(e, ast.BoolOp):
+        vals = [_prop_eval(v, asg) for v in e.values]
+        return all(vals) if isinstance(e.op, ast.And) else any(vals)
+    if isinstance(e, ast.UnaryOp) and isinstance(e.op, ast.Not):
+        return not _prop_eval(e.operand, asg)
+    k, pol = _atom_key(e)
+    return asg[k] if pol else not asg[k]
+
+
+def _merge_paths(cfg, lp, new, key):
+    """Enumerate the paths of one iteration of loop `lp`; yield (ok, witness, store stmt) per path that stores into new[key].
+    Abstract values: 'K' (contains the previous new[key]) / 'N'."""
+    import itertools
+    header = [n for n in cfg.nodes if n.kind == "for" and n.ast is lp]
+    if not header:
+        return
+    header = header[0]
+    body_ids = set()
+    for st in ast.walk(ast.Module(body=lp.body, type_ignores=[])):
+        body_ids.add(id(st))
+    paths = []
+
+    def dfs(node, nodes, conds):
+        if len(paths) > 200:
+            return
+        if node is header or (node.ast is not None and id(node.ast) not in body_ids and id(getattr(node, "stmt", None)) not in body_ids) and node.kind != "join":
+            paths.append((nodes, conds))
+            return
+        for (m, lab) in node.succ:
+            c2 = conds + [(node.ast, lab)] if node.kind == "cond" and lab is not None else conds
+            dfs(m, nodes + [m], c2)
+    for (m, lab) in header.succ:
+        if lab is True or (lab is None and m.ast is not None and id(m.ast) in body_ids):
+            dfs(m, [m], [])
+
+    def absval(e, env):
+        """list of (abstract value, extra conditions)"""
+        if isinstance(e, ast.Subscript) and isinstance(e.value, ast.Name) and e.value.id == new and src(e.slice) == key:
+            return [("K", [])]
+        if isinstance(e, ast.Name):
+            return [(env.get(e.id, "N"), [])]
+        if isinstance(e, ast.IfExp):
+            out = []
+            for (v, cs) in absval(e.body, env):
+                out.append((v, cs + [(e.test, True)]))
+            for (v, cs) in absval(e.orelse, env):
+                out.append((v, cs + [(e.test, False)]))
+            return out
+        if isinstance(e, ast.Call) and (dotted(e.func) or "").split(".")[-1] in STACKERS:
+            parts = []
+            for a in e.args:
+                parts += list(a.elts) if isinstance(a, (ast.Tuple, ast.List)) else [a]
+            alts = [[]]
+            vals = ["N"]
+            combos = [("N", [])]
+            for prt in parts:
+                nxt = []
+                for (v0, c0) in combos:
+                    for (v1, c1) in absval(prt, env):
+                        nxt.append(("K" if "K" in (v0, v1) else "N", c0 + c1))
+                combos = nxt
+            return combos
+        return [("N", [])]
+
+    for (nodes, conds) in paths:
+        alts = [({}, list(conds), None, None)]      # env, conditions, stored abstract value, store stmt
+        for nd in nodes:
+            if nd.kind != "stmt" or not isinstance(nd.ast, ast.Assign):
+                continue
+            st = nd.ast
+            t = st.targets[0]
+            nxt = []
+            for (env, cs, stored, sst) in alts:
+                for (v, extra) in absval(st.value, env):
+                    env2 = dict(env)
+                    if isinstance(t, ast.Name):
+                        env2[t.id] = v
+                        nxt.append((env2, cs + extra, stored, sst))
+                    elif isinstance(t, ast.Subscript) and isinstance(t.value, ast.Name) and t.value.id == new and src(t.slice) == key:
+                        nxt.append((env2, cs + extra, (v, src(st.value)), st))
+                    else:
+                        nxt.append((env2, cs + extra, stored, sst))
+            alts = nxt
+        for (env, cs, stored, sst) in alts:
+            if stored is None:
+                continue
+            label = " & ".join(("" if lab else "not ") + "(" + src(c)[:40] + ")" for (c, lab) in cs) or "unconditional"
+            if stored[0] == "K":
+                yield (True, {"path": label, "value": stored[1], "why": ""}, sst)
+                continue
+            atoms = {}
+            for (c, lab) in cs:
+                _prop_atoms(c, atoms)
+            k_in = f"{key} in {new}"
+            k_len = f"len({new}[{key}]) > 0"
+            names = sorted(set(atoms) | {k_in, k_len})
+            witness = None
+            for bits in itertools.product((True, False), repeat=len(names)):
+                asg = dict(zip(names, bits))
+                if not asg[k_in] or not asg[k_len]:
+                    continue
+                if all(_prop_eval(c, asg) == lab for (c, lab) in cs):
+                    witness = asg
+                    break
+            if witness is None:
+                yield (True, {"path": label, "value": stored[1], "why": ""}, sst)
+            else:
+                yield (False, {"path": label, "value": stored[1],
+                               "why": f"`{key}` may already be in `{new}` with a non-empty entry (" + ", ".join(f"{a}={v}" for a, v in witness.items()) + ")"}, sst)
 
 
 def _kind(ctx, cfg, node, e, mesh1):
@@ -691,6 +831,14 @@ def variants(repo):
     M = "optimism/Mesh.py"
     R = "optimism/ReadExodusMesh.py"
     return [
+        Variant("empty second side set replaces the first", "optimism/Mesh.py", sub("            elif key in newSet and len(val)==0:\n                val = newSet[key]\n", ""), "D1/T9-lossless-merge"),
+        Variant("node sets merged only when missing", "optimism/Mesh.py", sub("            newSet[key] = np.hstack((newSet[key], val)) if key in newSet else val\n    return newSet\n\n\ndef combine_sidesets", "            newSet[key] = val if key in newSet else val\n    return newSet\n\n\ndef combine_sidesets"), "D1/T9-lossless-merge"),
+        Variant("bubble face 2 listed forwards", "optimism/Interpolants.py", sub("    kk = onp.array([i for i in reversed(range(degree + 1, nNodesFromBase, 2))] + [0])", "    kk = onp.array([nNodesFromBase - 1] + [i for i in range(degree + 1, nNodesFromBase - 1, 2)] + [0])"), "D3/T6-parent-element-tables"),
+        Variant("bubble face 1 copied from plain element", "optimism/Interpolants.py", sub("    jj = onp.array([i for i in range(degree, 3*degree, 2)] + [nNodesFromBase - 1])", "    jj = onp.cumsum(onp.flip(ii)) + ii"), "D3/T6-parent-element-tables"),
+        Variant("plain face 2 not reversed", "optimism/Interpolants.py", sub("    kk = onp.flip(jj) - ii", "    kk = jj - onp.flip(ii)"), "D3/T6-parent-element-tables"),
+        Variant("vertex list misses the last node", "optimism/Interpolants.py", sub("    vertexPoints = np.array([0, degree, nPoints - 1], dtype=np.int32)", "    vertexPoints = np.array([0, degree, nPoints - 2], dtype=np.int32)"), "D3/T6-parent-element-tables"),
+        Variant("nodal x/y formulas exchanged", "optimism/Interpolants.py", sub("            points[point, 0] = (1.0 + 2.0*lobattoPoints[k] - lobattoPoints[j] - lobattoPoints[i])/3.0", "            points[point, 0] = (1.0 + 2.0*lobattoPoints[j] - lobattoPoints[k] - lobattoPoints[i])/3.0"), "D3/T6-parent-element-tables"),
+        Variant("alpha-rename bubble element", "optimism/Interpolants.py", alpha_rename("make_parent_element_2d_with_bubble"), None),
         Variant("overwrite on merge (blocks)", M, sub_in_func("combine_blocks", "        newSet[key] = np.hstack((newSet[key], val)) if key in newSet else val", "        newSet[key] = val"), "D1/T9-lossless-merge"),
         Variant("overwrite on merge (nodesets)", M, sub_in_func("combine_nodesets", "            newSet[key] = np.hstack((newSet[key], val)) if key in newSet else val", "            newSet[key] = val"), "D1/T9-lossless-merge"),
         Variant("node offset on side sets", M, sub_in_func("combine_mesh", "combine_sidesets(mesh1.sideSets, mesh2.sideSets, numElems1)", "combine_sidesets(mesh1.sideSets, mesh2.sideSets, numNodes1)"), "D1/T9-index-kinds"),
